@@ -291,7 +291,7 @@ class Gen:
             return ['fn', k, [self.num_expr(sc, depth, 3)]]
         if k == 'instr':
             a = self.str_expr(sc, depth)
-            b = ['lit', '$', r.choice(('a', 'l', 'z', 'el', ''))]
+            b = ['lit', '$', r.choice(('a', 'l', 'z', 'el', 'o'))]
             if r.random() < 0.5:
                 return ['fn', 'instr', [a, b]]
             return ['fn', 'instr', [['lit', '%', r.randint(1, 3)], a, b]]
